@@ -169,6 +169,7 @@ class R:
         self.subs_width = 0
         self.alias_names = []
         self.reverse = False
+        self.alts = []     # `alt_widths` of a group (grouped_registers: alternative_widths)
 
     def add_group_reg(self, reg):
         first = not self.subs
@@ -299,6 +300,8 @@ def load_registers(spec, grouped, fuse=False):
                         gr = R(g["name"], vti(g.get("offset", 0)), vti(g.get("width", 0)), g["uid"], False, access_label(g.get("access", "RW")))
                         gr.reverse = vtb(g.get("reversed", False))
                         gr.rev_subs = bool(g.get("reverse_subregs_order", False))
+                        aw = g.get("alternative_widths")
+                        gr.alts = [vti(a) for a in aw] if isinstance(aw, (list, tuple)) else []
                         add_register(gr)
                     gr.add_group_reg(reg)
                 else:
@@ -342,7 +345,11 @@ def details(regs, hide=()):
         for f in r.fdet:
             hidden = f["hidden"] or (r.uid, f["uid"]) in hide
             fs.append([f["reset"], 1 if hidden else 0, ACC[f["access"]], f["shift"], f["name"], f["uid"], [[v, n] for v, n in f["enums"]]])
-        out.append([init_value(r), r.name, r.uid, ACC[r.access], 1 if r.reverse else 0, fs])
+        # group structure: [width of one sub-register (0 = plain register), number of sub-registers, reverse_subregs_order,
+        #                   alt_widths, names and uids of the sub-registers (what find_reg(include_group_regs=True) also matches)]
+        grp = [r.subs[0].width if r.subs else 0, len(r.subs), 1 if (r.subs and r.rev_subs) else 0, sorted(r.alts) if r.subs else [],
+               [k for sub in r.subs for k in (sub.name, sub.uid)]]
+        out.append([init_value(r), r.name, r.uid, ACC[r.access], 1 if r.reverse else 0, fs, grp])
     return out
 
 
@@ -711,11 +718,13 @@ def _gen_RegLayouts():
     for i, l in enumerate(layouts):
         det = l["det"]
         names = sorted({r[1] for r in det["regs"]} | {r[2] for r in det["regs"]} | {f[4] for r in det["regs"] for f in r[5]}
-                       | {e[1] for r in det["regs"] for f in r[5] for e in f[6]})
+                       | {e[1] for r in det["regs"] for f in r[5] for e in f[6]} | {k for r in det["regs"] for k in r[6][4]})
         nid = {n: k for k, n in enumerate(names)}
         regs_txt = []
         for r in det["regs"]:
             hdr = [r[0], nid[r[1]], nid[r[2]], r[4] | (r[3] << 1)]
+            if r[6][0]:   # a group: sub-register width, count, order, number of alternative widths, these, then the sub-register keys
+                hdr += [r[6][0], r[6][1], r[6][2], len(r[6][3])] + list(r[6][3]) + [nid[k] for k in r[6][4]]
             fs = ", ".join("[" + ", ".join(map(str, [f[0], f[1] | (f[2] << 1), f[3], nid[f[4]]] + [x for e in f[6] for x in (e[0], nid[e[1]])])) + "]" for f in r[5])
             regs_txt.append("([" + ", ".join(map(str, hdr)) + "], [" + fs + "])")
         comp = "[" + ", ".join(f"({a}, {b}, {c})" for a, b, c in det["computed"]) + "]"
